@@ -35,10 +35,11 @@ AGREE = """  let '(m, (block, sig, ks, kr), (cs, maxbody), (chan, tok, req, s0),
                               | Failed r ETooManyChunks => (2, r, 0)
                               | Failed r EMessageTooLarge => (3, r, 0)
                               | Failed r ESecurityChecks => (4, 0, 0)
+                              | Failed r ESequenceNumber => (8, 0, 0)
                               | Failed r _ => (5, 0, 0)
                               | Aborted r => (7, r, 0)
                               | Crashed => (6, 0, 0)
-                              end) (receive_all (mkRcfg m pnone R chan maxchunks maxmsg) [] ws) in
+                              end) (receive_all (mkRcfg m pnone R chan maxchunks maxmsg) ([], None) ws) in
     (zlen outs =? zlen recv) &&
     forallb (fun oo => let '((c1, r1, h1), (c2, r2, h2)) := oo in (c1 =? c2) && (r1 =? r2) && (h1 =? h2)) (combine outs recv)
   | Err _ => (status =? 1) && (zlen chunks =? 0) && (zlen recv =? 0)
@@ -56,6 +57,8 @@ def recv_code(r, o):
         return (3, r["req"], 0)
     if "verifying security" in e or "SecurityChecksFailed" in e:
         return (4, 0, 0)
+    if "SequenceNumber" in e or "sequence number" in e.lower():
+        return (8, 0, 0)
     if e.startswith("panic"):
         return (6, 0, 0)
     if r["req"] == o["req"]:
